@@ -350,6 +350,7 @@ def r3_compressed(ctx):
                  "std::collections::hash::map::HashMap::get": hm_get, "std::collections::hash::map::HashMap::contains_key": hm_get,
                  "std::collections::hash::map::HashMap::len": hm_len, "std::collections::hash::map::HashMap::is_empty": hm_is_empty,
                  "std::collections::hash::map::HashMap::new": hm_new, "std::collections::hash::map::HashMap::with_capacity": hm_new,
+                 "<std::collections::hash::map::HashMap as core::default::Default>::default": hm_new,
                  "std::collections::hash::map::HashMap::entry": hm_entry, "std::collections::hash::map::Entry::or_insert_with": or_insert_with,
                  "std::collections::hash::map::HashMap::insert": hm_insert}
         it = install(Interp(fn.body, chain(mk_oracle(table), coll_oracle, std_oracle), [log], facts=F, inline=INL, max_visits=20, max_paths=50))
